@@ -1,8 +1,8 @@
 package main
 
 import (
-	"fmt"
 	"context"
+	"fmt"
 	"io"
 	"reflect"
 	"runtime"
@@ -88,25 +88,37 @@ func link(buffered bool) (a, b *duplexEnd) {
 	return &duplexEnd{r: r1, w: w2}, &duplexEnd{r: r2, w: w1}
 }
 
-// two configurations that contain LatLon exactly once, at opposite ends, with different precisions
+// two configurations that contain LatLon exactly once, at opposite ends, with different precisions; the slot LatLon
+// occupies in one configuration holds a type with a non-default coordinate system in the other, and every
+// coordinate-system type changes its coordinate system between the two
 func mixConfigs() (a, b xsens.OutputConfiguration, idA, idB uint16) {
-	mk := func(latlonFirst bool, prec xsens.Precision) xsens.OutputConfiguration {
+	mk := func(latlonFirst bool, prec xsens.Precision, cs xsens.CoordinateSystem) xsens.OutputConfiguration {
 		var cfg xsens.OutputConfiguration
 		ll := xsens.OutputConfigurationSetting{DataIdentifier: xsens.DataIdentifier{DataType: xsens.DataTypeLatLon, Precision: prec}, OutputFrequency: 100}
 		if latlonFirst {
 			cfg = append(cfg, ll)
 		}
+		set := func(t xsens.DataType) {
+			id := xsens.DataIdentifier{DataType: t, Precision: prec}
+			if t.HasCoordinateSystem() {
+				id.CoordinateSystem = cs
+			}
+			cfg = append(cfg, xsens.OutputConfigurationSetting{DataIdentifier: id, OutputFrequency: 100})
+		}
+		set(xsens.DataTypeEulerAngles)
 		for _, t := range supportedTypes {
-			if t != xsens.DataTypeLatLon {
-				cfg = append(cfg, xsens.OutputConfigurationSetting{DataIdentifier: xsens.DataIdentifier{DataType: t, Precision: prec}, OutputFrequency: 100})
+			if t != xsens.DataTypeLatLon && t != xsens.DataTypeEulerAngles && t != xsens.DataTypeQuaternion {
+				set(t)
 			}
 		}
+		set(xsens.DataTypeQuaternion)
 		if !latlonFirst {
 			cfg = append(cfg, ll)
 		}
 		return cfg
 	}
-	a, b = mk(true, xsens.PrecisionFloat64), mk(false, xsens.PrecisionFP1632)
+	a = mk(true, xsens.PrecisionFloat64, xsens.CoordinateSystemNorthEastDown)
+	b = mk(false, xsens.PrecisionFP1632, xsens.CoordinateSystemNorthWestUp)
 	idA = (xsens.DataIdentifier{DataType: xsens.DataTypeLatLon, Precision: xsens.PrecisionFloat64}).Uint16()
 	idB = (xsens.DataIdentifier{DataType: xsens.DataTypeLatLon, Precision: xsens.PrecisionFP1632}).Uint16()
 	return
@@ -140,10 +152,10 @@ func concurrentScenario(rounds, hammerers int, buffered bool, all bool) (seen ma
 			local := map[int64]int{}
 			for i := 0; atomic.LoadInt32(&stop) == 0; i++ {
 				p, err := emu.MarshalMessage(ll, xsens.DataTypeLatLon)
-				if err != nil {
+				if err != nil || len(p) < 2 {
 					local[-1]++
 				} else {
-					local[int64(xsens.MTData2Packet(p).Identifier().Uint16())]++
+					local[int64(p[0])<<8|int64(p[1])]++ // the header as written, not decoded again by the library
 				}
 				if all {
 					switch (i + h) % 4 {
